@@ -179,14 +179,22 @@ structure Entry where
   comment : Str
   deriving DecidableEq, Repr
 
-/-- `message_repr(message, template)`, as an extra; a failing `str.format` leaves the method -/
-def tagR (db : Tags.UnicodeDB) (e : Entry) (template : Str) (t : MTag) (rest : List Extra) : Emit :=
-  match Tags.messageRepr db e.msgid e.msgctxt template with
-  | .ok s => .tag t (.safe s :: rest)
-  | .error err => .crash (.format err)
+/-- `message_repr(message, template)` for the two templates in use, `'{}'` and `'{}:'` (`colon`): the closed form of
+    `tags.safe_format('msgid {id}[ msgctxt {ctxt}][:]', id=msgid, ctxt=msgctxt)` (the fixed templates cannot fail; that this IS what
+    `Tags.messageRepr` computes is Lemmas/MsgRepr.lean, and the `msg repr` correspondence stream) -/
+def msgRepr (db : Tags.UnicodeDB) (msgid : Str) (msgctxt : Option Str) (colon : Bool) : Str :=
+  lit "msgid " ++ Tags.escapeStr db msgid ++
+    (match msgctxt with | some c => lit " msgctxt " ++ Tags.escapeStr db c | none => []) ++ (if colon then [58] else [])
 
-def tplPlain : Str := lit "{}"
-def tplColon : Str := lit "{}:"
+/-- the `message_repr` extra of an entry (a `safestr`) -/
+def Entry.repr (db : Tags.UnicodeDB) (e : Entry) (colon : Bool) : Extra := .safe (msgRepr db e.msgid e.msgctxt colon)
+
+/-- `self.tag(t, message_repr(message[, template='{}:']), *rest)` -/
+def tagR (db : Tags.UnicodeDB) (e : Entry) (colon : Bool) (t : MTag) (rest : List Extra) : Emit :=
+  .tag t (e.repr db colon :: rest)
+
+def tplPlain : Bool := false
+def tplColon : Bool := true
 
 /-! ## the `range:` flag -/
 
@@ -307,11 +315,9 @@ def redundantLoop (env : FlagEnv) (e : Entry) (ff : List ((Str × Str) × Str)) 
   let pos := formatFlagsOf ff []
   let possible := formatFlagsOf ff (lit "possible")
   (commonKeys pos possible).map fun f =>
-    -- the arguments of `self.tag(…)` are evaluated left to right: `message_repr` first
-    match tagR env.db e tplColon .redundantMessageFlag [], impliedBy ((assocGet f pos).getD []) with
-    | .crash x, _ => .crash x
-    | _, .ok s => tagR env.db e tplColon .redundantMessageFlag [.str ((assocGet f possible).getD []), .safe s]
-    | _, .error err => .crash (.format err)
+    match impliedBy ((assocGet f pos).getD []) with
+    | .ok s => tagR env.db e tplColon .redundantMessageFlag [.str ((assocGet f possible).getD []), .safe s]
+    | .error err => .crash (.format err)
 
 /-- what follows the loop, up to `positive_format_flags = format_flags['']` -/
 def rangeTail (env : FlagEnv) (e : Entry) (rf : List ((Nat × Nat) × List (Str × Nat))) : List Emit :=
